@@ -328,7 +328,8 @@ P_C05(x) == P_C05Ctor(x) /\ P_C05Edit(x)
 
 \* --- C06 (state part; the query part needs the recorded answers) --------
 \* (the lookups of a constructed solution are read or computed from the graph it was given)
-P_C06(x) == /\ ((x.pf.forest /\ x.pf.tid /\ x.pf.lid /\ x.pf.look /\ ~IsSwitch(x.c) /\ ~IsPrim(x.c)) => LookupOK(x.post))
+\* (no antecedent on the id partitions: the lookups must mirror the ids on the graph whatever those ids are)
+P_C06(x) == /\ ((x.pf.forest /\ x.pf.look /\ ~IsSwitch(x.c) /\ ~IsPrim(x.c)) => LookupOK(x.post))
             /\ ((IsCtor(x.c) /\ x.pf.forest /\ x.ok) => LookupOK(x.post))
 
 \* --- C10 ---------------------------------------------------------------
